@@ -72,7 +72,9 @@ def examine(rng, t, s, b, first_only=False):
                 kinds = ",".join(sorted({type(e).__name__.replace("ValidationError", "")
                                          for e in errs}))
                 found.setdefault(f"invalid:{kinds}", (script, src(v)))
-            elif errs is not None and modelled:
+            elif errs is not None and modelled and "nan" not in src(v):
+                # (a generated nan against min / max is left to the validator alone: whether nan
+                # lies "within" a bound has no agreed meaning, see section 8)
                 try:
                     if not M.accepts(t, v):
                         found.setdefault("model-rejects-generated", (script, src(v)))
